@@ -32,7 +32,12 @@ for sid in ids:
     try:
         b = sh("CARGO_NET_OFFLINE=true cargo nextest run --workspace --no-fail-fast --test-threads 8 --offline 2>&1 | tail -1", REPO)
         res["baseline"] = b.stdout.strip()
-        todo = ALL if all_checks else [prop]
+        extra = []
+        try:
+            extra = [c for c in json.load(open(os.path.join(d, "meta.json"))).get("reported_by", []) if c != prop]
+        except Exception:
+            pass
+        todo = ALL if all_checks else [prop] + extra
         for c in todo:
             t0 = time.time()
             o = sh("VERIF_REPO=%s ./check %s quick" % (REPO, c), V)
